@@ -30,17 +30,20 @@ CACHE = os.path.join(vlib.VERIF, ".work", "cache")
 TIERS = {
     # batches: (cases, length, scale, features)
     "quick": dict(mc_cfg="MC_Ledger_quick.cfg", mc_timeout=300,
-                  batches=[(120, 10, "1", "default"), (30, 10, "2p64", "default"), (48, 8, "1", "sweep")]),
+                  batches=[(120, 10, "1", "default"), (30, 10, "2p64", "default"), (48, 8, "1", "sweep"),
+                           (30, 12, "1", "multi"), (2, 8, "1", "featsweep")]),
     "thorough": dict(mc_cfg="MC_Ledger_thorough.cfg", mc_timeout=3000,
                      batches=[(1500, 12, "1", "default"), (300, 12, "2p53", "default"), (300, 12, "2p63", "default"),
-                              (300, 12, "2p64", "default"), (300, 12, "1e30", "default"), (480, 10, "prime", "sweep")]),
+                              (300, 12, "2p64", "default"), (300, 12, "1e30", "default"), (480, 10, "prime", "sweep"),
+                              (400, 14, "1", "multi"), (16, 10, "1", "featsweep")]),
 }
 
 # outcome mismatches that no tagged predicate explains are attributed by operation kind
 KIND_OWNER = {"create": "C25", "revert": "C15", "txmeta": "C17", "untxmeta": "C17", "acmeta": "C17", "unacmeta": "C17"}
 
 # predicate -> known-finding signature (the predicate IS the finding: see spec/Ledger.tla)
-PRED_SIG = {"Inv_C18_RevertFirstUsage": "revert-before-first-usage"}
+PRED_SIG = {"Inv_C18_RevertFirstUsage": "revert-before-first-usage",
+            "Step_C35_EffWithoutMoves": "effective-volumes-without-moves-history"}
 
 
 def sh(cmd, **kw):
@@ -156,8 +159,15 @@ def build_pipeline(tier, seed):
             for bi, (n, length, scale, feat) in enumerate(cfg["batches"]):
                 tp = os.path.join(d, "b%d.ndjson" % bi)
                 cp = os.path.join(d, "b%d.cases.json" % bi)
-                p = sh([exe, "seq", "-seed", str(seed * 100 + bi), "-cases", str(n), "-len", str(length), "-scale", scale,
-                        "-features", feat, "-out", tp, "-cases-out", cp], timeout=3000)
+                cmd = [exe, "seq", "-seed", str(seed * 100 + bi), "-cases", str(n), "-len", str(length), "-scale", scale,
+                       "-out", tp, "-cases-out", cp]
+                if feat == "featsweep":
+                    # n histories, each under all 48 feature combinations (C35)
+                    cmd = [exe, "featsweep", "-seed", str(seed * 100 + bi), "-histories", str(n), "-len", str(length),
+                           "-scale", scale, "-out", tp, "-cases-out", cp]
+                else:
+                    cmd += ["-multi"] if feat == "multi" else ["-features", feat]
+                p = sh(cmd, timeout=3000)
                 try:
                     summ = json.loads(p.stdout.strip().splitlines()[-1])
                 except Exception:
@@ -179,7 +189,7 @@ def build_pipeline(tier, seed):
                     pf["scale"] = scale
                     res["projection"].append(pf)
                 res["inconclusive"].extend(summ.get("inconclusive", []))
-                base += n
+                base += len(cases)
                 os.remove(tp)
         json.dump(all_cases, open(os.path.join(d, "cases.json"), "w"))
         if res["inconclusive"]:
@@ -226,7 +236,7 @@ def negative_control(d, seed, pred_expected, mutate):
         by_case.setdefault(ln["case"], []).append(ln)
     cands = [c for c in sorted(by_case) if c not in bad_cases]
     rnd.shuffle(cands)
-    for c in cands[:40]:
+    for c in cands:
         cl = json.loads(json.dumps(by_case[c]))
         if not mutate(cl):
             continue
